@@ -55,7 +55,12 @@ func c17sm2Scenarios() []*sched.Scenario {
 			a, b, err := sm2.SignHashed(stream(k2), d2, ee)
 			return fmt.Sprintf("%x %x %v", a, b, err)
 		}
-		return [][]sched.Op{{{"SignHashed", sign(k1)}, {"VerifyHashed", verify}}, {{"VerifyHashed", verify}, {"DerivePublic", derive}, {"SignHashed", sign(k2)}}, {{"DerivePublic", derive}, {"SignHashed2", sign2}}}
+		px2, py2 := sm2ref.Pub(bi(d2))
+		sg2, _ := sm2ref.Sign(stream(k2), bi(d2), ee)
+		share(x, "pubx2", px2)
+		share(x, "puby2", py2)
+		verify2 := func() string { ok, err := sm2.VerifyHashed(px2, py2, ee, sg2.R, sg2.S); return fmt.Sprint(ok, err) }
+		return [][]sched.Op{{{"SignHashed", sign(k1)}, {"VerifyHashed", verify}, {"VerifyHashed(other key)", verify2}}, {{"VerifyHashed(other key)", verify2}, {"DerivePublic", derive}, {"SignHashed", sign(k2)}}, {{"DerivePublic", derive}, {"SignHashed2", sign2}, {"VerifyHashed", verify}}}
 	}})
 	out = append(out, &sched.Scenario{Name: "S5-za-signza-sm3", Build: func(x *sched.Exec) [][]sched.Op {
 		dd, pxx, pyy, idd, mm := append([]byte{}, d...), append([]byte{}, px...), append([]byte{}, py...), append([]byte{}, id...), append([]byte{}, msg...)
@@ -63,6 +68,14 @@ func c17sm2Scenarios() []*sched.Scenario {
 			share(x, n, b)
 		}
 		za := func() string { z, err := sm2.ZA(idd, pxx, pyy); return fmt.Sprintf("%x %v", z, err) }
+		// a second identity and key: anything remembered per identity / per key is evicted and refilled while others look it up
+		id2 := []byte("another-user@example")
+		d2 := b32(modN(bi(vx.Fill("c17d2", 32))))
+		px2, py2 := sm2ref.Pub(bi(d2))
+		share(x, "id2", id2)
+		share(x, "pubx2", px2)
+		share(x, "puby2", py2)
+		za2 := func() string { z, err := sm2.ZA(id2, px2, py2); return fmt.Sprintf("%x %v", z, err) }
 		zref, _ := sm2ref.ZA(idd, pxx, pyy)
 		signza := func() string {
 			a, b, err := sm2.SignZa(stream(k1), dd, zref[:], mm)
@@ -77,7 +90,7 @@ func c17sm2Scenarios() []*sched.Scenario {
 			p, a, b, err := sm2.GenerateKey(stream(k1))
 			return fmt.Sprintf("%x %x %x %v", p, a, b, err)
 		}
-		return [][]sched.Op{{{"ZA", za}, {"sm3", h}}, {{"SignZa", signza}, {"GenerateKey", gen}}, {{"sm3", h}, {"Sign", sign}}}
+		return [][]sched.Op{{{"ZA", za}, {"sm3", h}, {"ZA(other identity)", za2}}, {{"SignZa", signza}, {"GenerateKey", gen}, {"ZA", za}}, {{"ZA(other identity)", za2}, {"sm3", h}, {"Sign", sign}}}
 	}})
 	// S6: values with leading zero bytes (a short r when signing, a short t = r+s when verifying: they take the padding
 	// paths) and, before the threads start, calls that FAIL (randomness that errors at once / after 16 bytes, an invalid
